@@ -1546,7 +1546,7 @@ bool tNMEA2000::SendMsg(const tN2kMsg &N2kMsg, int DeviceIndex) {
                   temp[1] = N2kMsg.DataLen; //total bytes in fast packet
                   //send the first 6 bytes
                   for (int j = 2; j<8; j++) {
-                       temp[j]=N2kMsg.Data[cur];
+                       temp[j]=(cur<N2kMsg.DataLen?N2kMsg.Data[cur]:0xff);
                        cur++;
                    }
                   N2kPrintFreeMemory("SendMsg, fastpacket");
